@@ -364,7 +364,9 @@ def pos_snap(obj):
         return ('rec', type(obj).__name__, getattr(obj, '_currentIdx', None),
                 'noValue' if cv is univ.noValue else tuple(pos_snap(c) for c in cv))
     v = obj._value
-    return ('val', type(obj).__name__, 'noValue' if v is univ.noValue else repr(v))
+    # a BIT STRING's payload is an integer carrying its bit length separately: 55 zero bits and no bits print alike
+    extra = len(v) if isinstance(v, univ.SizedInteger) else None
+    return ('val', type(obj).__name__, 'noValue' if v is univ.noValue else repr(v), extra)
 
 
 def jsonable(x):
